@@ -868,7 +868,7 @@ func (w *c43World) genFetch(t *rapid.T) c43Fetch {
 		kinds = append(kinds, "own", "own", "own", "own", "own", "own")
 	}
 	if len(other) > 0 {
-		kinds = append(kinds, "otherPath", "otherPath", "otherPath")
+		kinds = append(kinds, "otherPath", "otherPath", "otherPath", "otherPath", "otherPath")
 	}
 	if len(dead) > 0 {
 		kinds = append(kinds, "kicked", "kicked")
